@@ -78,7 +78,7 @@ def plan(tier, seed):
                       oracles={"resource"}, extra={"reads": tier != "quick"})
             n = {2: 2, 3: 12, 4: 32}[depth]
             if depth >= 4:
-                kw["max_transitions"] = 300000
+                kw["max_transitions"] = 60000
             tasks += seqcheck.split(n, **kw)
     return tasks
 
